@@ -70,7 +70,7 @@ theorem merge_trans (segs : List Seg) (h : PathOk segs) : merge6793 (transSegs s
   rw [pathCount_transSegs]
   simp only [Nat.lt_irrefl, if_false, Nat.sub_self]
   rw [takeUnits_zero]
-  · rfl
+  · rw [plainSegs_of_PathOk segs h]; rfl
   · intro s hs
     simp only [transSegs, List.mem_map] at hs
     obtain ⟨s0, h0, e⟩ := hs
@@ -85,7 +85,8 @@ variable (p : SessParams) (r : RouteReq) (nh : Bytes) (tail : List Attr)
 
 theorem ctx_as4 (ht : IsTail tail) :
     findAs4Path (semAll p r nh ++ tail) =
-      if p.asn4 then none else if hasBig (modelPath p r) then some (modelPath p r) else none := by
+      if p.asn4 then none
+      else if hasBig (plainSegs (modelPath p r)) then some (plainSegs (modelPath p r)) else none := by
   rw [findAs4Path_eq, findSome_append_tail _ _ _ (fun x hx => gAs4_none x (by rw [tail_code tail ht x hx]; decide)),
     find_semAll_slot p r nh gAs4 17 2 gAs4_none (by decide) (by decide), slot2]
   unfold semAsPath
@@ -93,9 +94,9 @@ theorem ctx_as4 (ht : IsTail tail) :
   · simp only [h4, if_true]; rfl
   · have h4' : p.asn4 = false := by simpa using h4
     simp only [h4', Bool.false_eq_true, if_false]
-    by_cases hb : hasBig (modelPath p r) = true
+    by_cases hb : hasBig (plainSegs (modelPath p r)) = true
     · simp only [hb, if_true]; rfl
-    · have hb' : hasBig (modelPath p r) = false := by simpa using hb
+    · have hb' : hasBig (plainSegs (modelPath p r)) = false := by simpa using hb
       simp only [hb', Bool.false_eq_true, if_false]; rfl
 
 theorem ctx_agg4 (ht : IsTail tail) :
@@ -195,7 +196,7 @@ theorem rep2 (ht : IsTail tail) (hp : PathOk (modelPath p r)) :
     have e : repAt (reportVal (paramsOf p) (semAll p r nh ++ tail)) 2
         (mk (paramsOf p) false true (.asPath (transSegs (modelPath p r)))) = some (.asPath (modelPath p r)) := by
       simp only [repAt, reportVal, mk, paramsOf, h4', Bool.false_eq_true, if_false,
-        ctx_as4 p r nh tail ht, ctx_useAs4 p r nh tail ht, if_true]
+        ctx_as4 p r nh tail ht, ctx_useAs4 p r nh tail ht, if_true, plainSegs_of_PathOk _ hp]
       by_cases hb : hasBig (modelPath p r) = true
       · simp [hb, merge_trans _ hp, AttrVal.code]
       · have hb' : hasBig (modelPath p r) = false := by simpa using hb
